@@ -124,7 +124,7 @@ def run_batch(jobs, sim_dir=SIM_DIR, repo=REPO, workers=NCPU, stop_on_violation=
     # longest first (makespan), except that the cheap special-purpose kinds — thread churn, coarse clock, many
     # threads, pooled 16-thread runs: together a few per cent of the batch — go to the front, so that what only
     # they can see is reported in the first minute rather than the last
-    front = {"G", "C", "T", "P16", "X", "B", "N", "F", "Y"}
+    front = {"G", "C", "T", "P16", "X", "B", "N", "F", "Y", "K"}
     order = sorted(jobs, key=lambda j: (0 if j.get("kind") in front else 1, -runner.predicted_cost(j)))
     recs = []
     stop = False
@@ -258,6 +258,8 @@ def minimise(job, target, sim_dir, repo, budget=60, wall_budget=150.0):
             out.append(("warm=0", dict(c, warm=0)))
         if c.get("clockq"):
             out.append(("fine clock", dict(c, clockq=0)))
+        if c.get("wallstep"):
+            out.append(("no wall-clock step", dict(c, wallstep=None)))
         if c.get("release"):
             out.append(("dev profile", dict(c, release=0)))
         if c.get("gens", 1) > 1:
@@ -505,7 +507,9 @@ def write_evidence_file(tier, seed, jobs, recs, audit, wall, reported, stopped, 
                 "illegal_calls_injected_and_caught_between_draws": sum(r.get("caught_faults", [0, 0])[0] for r in ok),
                 "of_which_unwound": sum(r.get("caught_faults", [0, 0])[1] for r in ok),
                 "victim_threads_that_died_of_an_uncaught_panic_next_to_drawing_threads": sum(r.get("victims_died", 0) for r in ok),
-                "runs_with_the_callers_own_rand_use_between_draws(ops 20-27)": sum(1 for r in ok if r["job"].get("ops") and (r["job"]["ops"] & 1 or (r["job"]["ops"] >> 1) % plan.NOPS >= 20)),
+                "runs_with_the_callers_own_rand_use_between_draws(ops 20-27)": sum(1 for r in ok if r["job"].get("ops") and (r["job"]["ops"] & 1 or 20 <= (r["job"]["ops"] >> 1) % plan.NOPS < 28)),
+                "runs_in_which_the_wall_clock_stepped_backwards(SystemTime; 1 s .. before the epoch)": sum(1 for r in ok if r["job"].get("wallstep")) if runner.SYSROOT else 0,
+                "runs_with_more_than_64_caller_threads_alive_at_once": sum(1 for r in ok if r["job"]["K"] > 64),
                 "runs_interpreting_the_release_profile": sum(1 for r in ok if r["job"].get("release")),
                 "runs_with_more_than_255_threads_over_process_life": sum(1 for r in ok if runner.nthreads(r["job"]) > 255),
                 "runs_with_successive_thread_generations": sum(1 for r in ok if r["job"].get("gens", 1) > 1),
